@@ -1,5 +1,12 @@
-import PMH.Props.C10
+import PMH.Props.C10L
 #print axioms PMH.C10.position_is_omh_selection
 #print axioms PMH.C10.collision_is_omh_event
 #print axioms PMH.C10.ranking_uniform_tool
 #print axioms PMH.OrdP.selected_char
+#print axioms PMH.C10.induced_ranking_uniform
+#print axioms PMH.C10.omh_event_reading
+#print axioms PMH.C10.collision_probability_is_omh_probability
+#print axioms PMH.C10.expected_fraction_is_omh_probability
+#print axioms PMH.OmhLaw.ex_model_identity
+#print axioms PMH.OmhLaw.ex_model_collisions
+#print axioms PMH.C10.raw_state_seeding_first_output
